@@ -8,6 +8,7 @@ import (
 	"sync/atomic"
 	"time"
 
+	proxyv1alpha1 "github.com/kubewharf/kubegateway/pkg/apis/proxy/v1alpha1"
 	"github.com/kubewharf/kubegateway/pkg/flowcontrols/flowcontrol"
 
 	"verifharness/vkit"
@@ -124,10 +125,19 @@ func concurrentRuns(r *vkit.R) {
 		sideMax := int32(g.Range(1, 3))
 		otherMax := int32(g.Range(1, 3))
 
+		near := nearNames[i%len(nearNames)]
+		nearMax := int32(g.Range(1, 3))
+
 		run := &concRun{totalOps: totalOps}
 		cur := cfg{Kind: kMIF, Max: initMax}
 		fillerMax, order := int32(5), 0
-		hA.sync(spec(cur, sideMax, fillerMax, order))
+		// cluster A's spec: hot schema as configured, side, filler and a schema whose name is a near-collision of the hot one
+		specA := func() proxyv1alpha1.FlowControl {
+			sp := spec(cur, sideMax, fillerMax, order)
+			sp.Schemas = append(sp.Schemas, mifSchema(near.Name, nearMax))
+			return sp
+		}
+		hA.sync(specA())
 		hB.sync(spec(cfg{Kind: kMIF, Max: otherMax}, 1, 1, 0)) // other cluster, same schema name
 		var allEpochs []*epochInfo
 		t0 := run.tick()
@@ -204,15 +214,18 @@ func concurrentRuns(r *vkit.R) {
 			bad                  string
 			badAt                int
 		}
-		iso := make([]isoRes, 2)
+		iso := make([]isoRes, 3)
 		var pwg sync.WaitGroup
-		for pi := 0; pi < 2; pi++ {
+		for pi := 0; pi < 3; pi++ {
 			pwg.Add(1)
 			go func(pi int) {
 				defer pwg.Done()
 				h, schema, K := hA, side, int(sideMax)
 				if pi == 1 {
 					h, schema, K = hB, hot, int(otherMax)
+				}
+				if pi == 2 {
+					h, schema, K = hA, near.Name, int(nearMax)
 				}
 				for {
 					done := atomic.LoadInt32(&workersDone) == 1
@@ -256,7 +269,7 @@ func concurrentRuns(r *vkit.R) {
 			epochChanging := !(prev.Kind == kMIF && nc.Kind == kMIF)
 			if prev.Kind != kMIF && nc.Kind != kMIF {
 				cur = nc
-				hA.sync(spec(cur, sideMax, fillerMax, order))
+				hA.sync(specA())
 				return
 			}
 			rec := syncRec{Label: label, To: nc}
@@ -264,7 +277,7 @@ func concurrentRuns(r *vkit.R) {
 				run.epoch.Store((*epochInfo)(nil))
 				rec.Start = run.tick()
 				cur = nc
-				hA.sync(spec(cur, sideMax, fillerMax, order))
+				hA.sync(specA())
 				rec.Done = run.tick()
 				if nc.Kind == kMIF {
 					ne := &epochInfo{id: len(allEpochs), begin: epochBegin(prev, false), beginSeq: rec.Start, maxEver: int64(nc.Max), syncs: []syncRec{rec}}
@@ -283,7 +296,7 @@ func concurrentRuns(r *vkit.R) {
 			}
 			rec.Start = run.tick()
 			cur = nc
-			hA.sync(spec(cur, sideMax, fillerMax, order))
+			hA.sync(specA())
 			rec.Done = run.tick()
 			e.syncs = append(e.syncs, rec)
 		}
@@ -478,7 +491,7 @@ func concurrentRuns(r *vkit.R) {
 				fmt.Sprintf("at quiescence %d sequential acquires succeeded under limit %d", got, M),
 				map[string]interface{}{"run": base, "limit": M, "admitted": got, "epoch": epochSummary(run.cur())})
 		}
-		for pi, what := range []string{"same-cluster-other-schema", "other-cluster-same-schema-name"} {
+		for pi, what := range []string{"same-cluster-other-schema", "other-cluster-same-schema-name", "same-cluster-near-collision-name=" + near.Class} {
 			if iso[pi].bad != "" {
 				r.Violation("C05/isolation/"+iso[pi].bad+"/"+what,
 					fmt.Sprintf("a limiter used by a single goroutine (%s) %s at its acquire number %d while another (cluster, schema) was under load / being reconfigured", what, iso[pi].bad, iso[pi].badAt+1),
